@@ -185,3 +185,90 @@ func zeroedInLoop(a *ssa.Alloc, body map[*ssa.BasicBlock]bool) bool {
 	}
 	return false
 }
+
+// checkFreshDecodeTargets (dec.fresh-target): a delivery-level decoder hands each nested
+// Decode* method a structure it has just allocated on this path: the store of a fresh
+// allocation into the receiver's field dominates the call that decodes into it.  Otherwise a
+// second decode into the same container starts from the first one's leftovers.
+func checkFreshDecodeTargets(w *World, r *Report, rel, fnName string) {
+	f := w.LookupFunc(rel, fnName)
+	if f == nil {
+		r.Fail("anchor", rel+"."+fnName, "missing", token.NoPos, "decoder not found", nil)
+		return
+	}
+	fn := w.SSAFunc(f)
+	name := FuncName(f)
+	r.Fn(name)
+	type fieldKey struct {
+		base  ssa.Value
+		field int
+	}
+	keyOf := func(addr ssa.Value) (fieldKey, bool) {
+		fa, ok := addr.(*ssa.FieldAddr)
+		if !ok {
+			return fieldKey{}, false
+		}
+		return fieldKey{fa.X, fa.Field}, true
+	}
+	isFresh := func(v ssa.Value) bool {
+		switch x := v.(type) {
+		case *ssa.Alloc:
+			return x.Heap
+		case *ssa.Call:
+			if sc := x.Call.StaticCallee(); sc != nil && len(sc.Name()) > 3 && sc.Name()[:3] == "New" {
+				return true
+			}
+		}
+		return false
+	}
+	var stores []*ssa.Store
+	for _, b := range fn.Blocks {
+		for _, ins := range b.Instrs {
+			if st, ok := ins.(*ssa.Store); ok && isFresh(st.Val) {
+				stores = append(stores, st)
+			}
+		}
+	}
+	for _, b := range fn.Blocks {
+		for idx, ins := range b.Instrs {
+			c, ok := ins.(*ssa.Call)
+			if !ok || c.Call.IsInvoke() || len(c.Call.Args) == 0 {
+				continue
+			}
+			sc := c.Call.StaticCallee()
+			if sc == nil || sc.Signature.Recv() == nil || len(sc.Name()) < 6 || sc.Name()[:6] != "Decode" {
+				continue
+			}
+			ld, ok := c.Call.Args[0].(*ssa.UnOp)
+			if !ok || ld.Op != token.MUL {
+				continue
+			}
+			k, ok := keyOf(ld.X)
+			if !ok {
+				continue
+			}
+			r.Site("dec.fresh-target")
+			good := false
+			for _, st := range stores {
+				sk, ok := keyOf(st.Addr)
+				if !ok || sk != k {
+					continue
+				}
+				if st.Block() == b {
+					for j := 0; j < idx; j++ {
+						if b.Instrs[j] == ssa.Instruction(st) {
+							good = true
+						}
+					}
+				} else if st.Block().Dominates(b) {
+					good = true
+				}
+			}
+			if good {
+				r.OK("dec.fresh-target")
+			} else {
+				r.Fail("dec.fresh-target", name, sc.Name(), c.Pos(), "the structure "+sc.Name()+" decodes into is not freshly allocated on every path to the call: a second decode into the same container starts from the previous message's contents", nil)
+			}
+		}
+	}
+}
